@@ -26,6 +26,7 @@
 #include <ompl/util/Console.h>
 #include <ompl/util/RandomNumbers.h>
 
+#include <algorithm>
 #include <cstring>
 #include <iostream>
 #include <streambuf>
@@ -143,9 +144,17 @@ namespace
             s["t"] = "compound";
             Json c = Json::array();
             int n = (int)g.range(1, 3);
+            bool allDiscrete = g.chance(0.15);  // a compound without a single real value (e.g. gear x mode)
             for (int i = 0; i < n; i++)
             {
                 Json ch = genSpace(g, depth + 1);
+                if (allDiscrete)
+                {
+                    ch = Json::object();
+                    ch["t"] = "discrete";
+                    ch["lo"] = (long)g.range(-5, 0);
+                    ch["hi"] = (long)g.range(1, 9);
+                }
                 ch["w"] = g.pick(std::vector<double>{1.0, 0.5, 2.0, 0.125});
                 c.push(ch);
             }
@@ -380,27 +389,61 @@ sim::CaseResult IoSim::run(const sim::Options &, const Json &plan)
         sp->freeState(d);
         sp->freeState(r);
     }
-    // partial copy between related compounds: destination = [first subspace of A, a fresh R^2]
+    // partial copy between related compounds: destination = [some descendant subspace of A (any depth), a fresh R^2]
     if (res.vclass.empty() && sp->isCompound() && n > 0)
     {
-        auto *cs = sp->as<ob::CompoundStateSpace>();
+        sim::Rng g((uint64_t)plan.geti("ompl_seed", 1) * 977 + 5);
+        // walk down to a random descendant, remembering the component chain (found without the library's name maps)
+        ob::StateSpacePtr sub = sp;
+        std::vector<unsigned> chain;
+        while (sub->isCompound() && (chain.empty() || g.chance(0.6)))
+        {
+            auto *c = sub->as<ob::CompoundStateSpace>();
+            unsigned i = (unsigned)g.below(c->getSubspaceCount());
+            chain.push_back(i);
+            sub = c->getSubspace(i);
+        }
+        auto locate = [&](const ob::State *s) {
+            for (unsigned i : chain)
+                s = s->as<ob::CompoundState>()->components[i];
+            return s;
+        };
         auto dst = std::make_shared<ob::CompoundStateSpace>();
-        dst->addSubspace(cs->getSubspace(0), 1.0);
+        dst->addSubspace(sub, 1.0);
         auto extra = std::make_shared<ob::RealVectorStateSpace>(2);
         extra->setBounds(0, 1);
         dst->addSubspace(extra, 1.0);
         dst->lock();
+        dst->setup();
+        sp->setup();
         ob::State *d = dst->allocState();
+        // start from a different state's contents so that a copy that does nothing is visible
+        sub->copyState(d->as<ob::CompoundState>()->components[0], locate(states[(size_t)(n - 1)]));
         d->as<ob::CompoundState>()->as<ob::RealVectorStateSpace::StateType>(1)->values[0] = 0.25;
         d->as<ob::CompoundState>()->as<ob::RealVectorStateSpace::StateType>(1)->values[1] = 0.75;
-        ob::AdvancedStateCopyOperation r = ob::copyStateData(dst, d, sp, states[0]);
-        const ob::State *srcSub = states[0]->as<ob::CompoundState>()->components[0];
+        std::vector<std::string> common;
+        dst->getCommonSubspaces(sp, common);
+        const ob::State *srcSub = locate(states[0]);
         const ob::State *dstSub = d->as<ob::CompoundState>()->components[0];
         auto *ex = d->as<ob::CompoundState>()->as<ob::RealVectorStateSpace::StateType>(1);
-        if (r == ob::NO_DATA_COPIED || !cs->getSubspace(0)->equalStates(srcSub, dstSub))
-            res.violate(P + ".partial-copy-missed-common-component", "copyStateData did not transfer the common subspace exactly");
+        // (1) by name: the common subspaces must include the shared one, and copying them must transfer it
+        bool listed = std::find(common.begin(), common.end(), sub->getName()) != common.end();
+        ob::AdvancedStateCopyOperation r = ob::copyStateData(dst, d, sp, states[0], common);
+        // (the list may name the subspace itself or an equivalent cover of it, e.g. the only child of a one-component
+        // compound; what counts is that the shared data arrives)
+        bool byName = r != ob::NO_DATA_COPIED && sub->equalStates(srcSub, dstSub);
+        // (2) by structure, from a fresh (different) destination content
+        sub->copyState(d->as<ob::CompoundState>()->components[0], locate(states[(size_t)(n - 1)]));
+        ob::AdvancedStateCopyOperation r2 = ob::copyStateData(dst, d, sp, states[0]);
+        if (!byName)
+            res.violate(P + ".partial-copy-missed-common-component",
+                        fmt("getCommonSubspaces/copyStateData(by name) did not transfer the common subspace (depth %zu, %s, listed=%d)", chain.size(), sub->getName().c_str(), (int)listed));
+        else if (r2 == ob::NO_DATA_COPIED || !sub->equalStates(srcSub, dstSub))
+            res.violate(P + ".partial-copy-missed-common-component",
+                        fmt("copyStateData did not transfer the common subspace (depth %zu, %s) exactly", chain.size(), sub->getName().c_str()));
         else if (ex->values[0] != 0.25 || ex->values[1] != 0.75)
             res.violate(P + ".partial-copy-touched-foreign-component", "copyStateData changed a component the source does not have");
+        res.probes["partial-copy-of-a-nested-subspace"] += chain.size() > 1;
         dst->freeState(d);
     }
 
